@@ -35,7 +35,9 @@ MANIFEST = {
             "(id_input_spec, id_hash_choice; the pinned code takes the first in dictionary order: refuted variant with "
             "witness), different contributing JSON values give different hashed strings (id_input_injective) and hence "
             "different ids under the explicit hypothesis that uuid5 separates the two strings (id_distinct_partial), random "
-            "when none is present (id_random_when_none); generated contributing lists = STIX 2.1 part 6 lists.",
+            "when none is present (id_random_when_none); generated contributing lists = STIX 2.1 part 6 lists. Source text "
+            "(Props/C06Src.v): the shape of _generate_id, _make_json_serializable, the 2.1 __init__ guard, the hash chain and "
+            "the namespace constant, read from the ast on every run, are the ones the model transcribes.",
     "design_ref": "DESIGN.md 6/C06",
     "note": "Model hand-written; tables regenerated from /repo by tr_scoid (fail closed); tied to /repo by a correspondence "
             "run each check over all 18 observable types + custom observables. Trusted: Coq kernel + vm_compute, tr_scoid, "
@@ -1073,7 +1075,9 @@ def check(run):
         except Exception as e:  # noqa: BLE001 -- fail closed
             run.broken.append(Broken("translator", "tr_scoid", {"error": "%s: %s" % (type(e).__name__, str(e)[-800:])}))
         res = common.build_props("Props/C06.v", extra_targets=["Model/ScoIdRun.vo"])
-        run.add_build(res, "make -C coq Props/C06.vo (coqc 8.16.1, full .vo) + Print Assumptions per theorem")
+        run.add_build(res, "make -C coq Props/C06.vo Props/C06Src.vo (coqc 8.16.1, full .vo) + Print Assumptions per theorem")
+        res2 = common.build_props("Props/C06Src.v")
+        run.add_build(res2, "make -C coq Props/C06.vo Props/C06Src.vo (coqc 8.16.1, full .vo) + Print Assumptions per theorem")
     model_ok = meta is not None and os.path.exists(os.path.join(common.COQ, "Model", "ScoIdRun.vo"))
 
     # ---- which variant does the code match?
@@ -1157,7 +1161,8 @@ def check(run):
             run.violations.append(v)
 
     run.coverage["trusted_base"] += [
-        "translators/tr_scoid.py (live 2.1 observable registry + ast of _choose_one_hash -> Gen/ScoIdTables.v; fail closed)",
+        "translators/tr_scoid.py (live 2.1 observable registry + ast of _choose_one_hash, _generate_id, _make_json_serializable, "
+        "v21 _Observable.__init__ -> Gen/ScoIdTables.v; fail closed); Props/C06Src.v states that the text is the one the model transcribes",
         "the C16 model of the canonicalizer (coq/Model/Jcs.v) and its trusted base",
         "Python's uuid.uuid5 (applied by the harness to the model's data string; abstract in the theorems)",
         "coq/Spec/ScoIdSpec.v and SPEC_CONTRIB in harness/props/c06.py: STIX 2.1 part 6 contributing-property lists, written from the standard",
